@@ -36,7 +36,10 @@ TReset ==
        /\ stat' = [stat EXCEPT !.cases = @ + 1,
                                !.skippedOrderDep = @ + (IF ~AllSame(e.acc) THEN 1 ELSE 0),
                                !.rejectedSets = @ + (IF AllSame(e.acc) /\ ~e.acc[1] THEN 1 ELSE 0)]
-  /\ l' = l + 1 /\ UNCHANGED <<failed, drift>>
+       /\ failed' = failed \cup
+            (IF AllSame(e.acc) /\ ~e.acc[1] /\ \A k \in 1..e.nuser : Plain(e.rules[k].tmpl)
+             THEN {<<e.case, l, IF \E k \in DOMAIN e.errs : e.panicked THEN "RegPanic" ELSE "RejectedPlain">>} ELSE {})
+  /\ l' = l + 1 /\ UNCHANGED drift
 
 NormOut(o) == [k |-> o.k, why |-> "", m |-> o.m,
                caps |-> {[fp |-> c.fp, val |-> c.val] : c \in Range(o.caps)}]
